@@ -246,6 +246,10 @@ def run(tier, seed):
     singles = [((q, u),) for q in names for u in SPELLINGS]
     multi = [tuple((q, u) for q, u in zip(("TEMPERATURE", "PRESSURE", "ANGLE", "SPEED"), us)) for us in
              (("c", "bar", "deg", "kts"), ("F", "PSI", "DEG", "KTS"), ("bar", "c", "kts", "deg"), ("xyz", "xyz", "xyz", "xyz"))] + [tuple()]
+    # recognised and unrecognised entries mixed, in every relative order (a preference map is an ordered dict)
+    multi += [(("SPEED", "mph"), ("TEMPERATURE", "C")), (("TEMPERATURE", "C"), ("SPEED", "mph"), ("PRESSURE", "psi")),
+              (("DISTANCE", "nm"), ("PRESSURE", "bar"), ("ANGLE", "deg")), (("PRESSURE", "mmHg"), ("TEMPERATURE", "F"), ("ANGLE", "xyz"), ("SPEED", "kts")),
+              (("ANGLE", "deg"), ("GEOGRAPHICAL_LATITUDE", "deg"), ("SPEED", "KTS"))]
     jobs = singles + multi
     rep.bounds = {"preference maps": "%d single-entry maps (8 quantities x %d spellings incl. units of other quantities and unknown units) + %d multi-entry maps" % (len(singles), len(SPELLINGS), len(multi)),
                   "values": "any real in [-1e7, 1e7] or None (rounding-error model)", "message": "one field per physical quantity (28) + one without"}
@@ -289,10 +293,15 @@ def replay(r):
         problems = []
         vals = [r["value"]] if r.get("value") is not None else [None]
         vals += [300.0, 273.15, 0.0, 101325.0, 1.5, -2.0, 12.345, None]
-        for val in vals:
+        # the model's witness is a real number from the rounding-error model; the value that shows the defect on binary64 may be a
+        # neighbour: sweep the grid of the finest database resolution of these quantities (0.001) around the witness and around 300
+        centre = r["value"] if r.get("value") is not None else 300.0
+        sweep = [round(c0 + j * 0.001, 3) for c0 in (centre, 300.0) for j in range(-3000, 3001)]
+        quick_qs = [q for q in list(PQ) + [None] if (q.name if q is not None else "NONE") in (qn, "NONE")]
+        for val in vals + sweep:
             m = N.message.NMEA2000Message(PGN=1, id="m", description="d")
             fs = []
-            for q in list(PQ) + [None]:
+            for q in (list(PQ) + [None]) if len(problems) == 0 and val in vals[:9] else quick_qs:
                 nm = q.name if q is not None else "NONE"
                 u0 = {"TEMPERATURE": "K", "PRESSURE": "Pa", "ANGLE": "rad", "SPEED": "m/s"}.get(nm, "u_" + nm)
                 fs.append(N.message.NMEA2000Field("id_" + nm, "Name", "desc", u0, val, ("RAW", nm), q, N.consts.FieldTypes.NUMBER, False))
